@@ -151,6 +151,24 @@ func (c *channel) enqueue(req request, responseChan chan<- response, streaming b
 		c.routeResponse(req.msg.Metadata.MessageID, response{nid: c.node.ID(), err: req.ctx.Err()})
 		return
 	case c.sendQ <- req:
+		// with a send buffer the request can be accepted although the node is
+		// (being) closed; the sender may already have drained the queue and gone
+		if c.parentCtx.Err() != nil {
+			c.failQueued()
+		}
+	}
+}
+
+// failQueued answers every request still waiting in the send queue with an error.
+// It is used when the node is closed: nobody will send these requests any more.
+func (c *channel) failQueued() {
+	for {
+		select {
+		case req := <-c.sendQ:
+			c.routeResponse(req.msg.Metadata.MessageID, response{nid: c.node.ID(), err: fmt.Errorf("channel closed")})
+		default:
+			return
+		}
 	}
 }
 
@@ -222,6 +240,8 @@ func (c *channel) sender() {
 	for {
 		select {
 		case <-c.parentCtx.Done():
+			// requests accepted into the send buffer must not be left unanswered
+			c.failQueued()
 			return
 		case req = <-c.sendQ:
 		}
